@@ -104,8 +104,11 @@ IsWideCase(c) ==
 
 Alt(w) == [i \in 1..Len(w) |-> IF i % 2 = 0 THEN LowB(w[i]) ELSE UpB(w[i])]
 CaseForms(w) == {UpAscii(w), LowAscii(w), Alt(w)}
+NulRun(n) == [i \in 1..n |-> 0]
 NulForms(w) == {w} \cup (IF Len(w) >= 2 THEN {SubSeq(w, 1, 1) \o <<0>> \o SubSeq(w, 2, Len(w)),
-                                               SubSeq(w, 1, Len(w) - 1) \o <<0, 0>> \o SubSeq(w, Len(w), Len(w))} ELSE {})
+                                               SubSeq(w, 1, Len(w) - 1) \o <<0, 0>> \o SubSeq(w, Len(w), Len(w)),
+                                               SubSeq(w, 1, 1) \o NulRun(12) \o SubSeq(w, 2, Len(w)),          \* long runs: raw name far longer
+                                               SubSeq(w, 1, Len(w) - 1) \o NulRun(40) \o SubSeq(w, Len(w), Len(w))} ELSE {})   \* than any listed name
 
 BRange(f) == {f[i] : i \in DOMAIN f}
 BTags == BRange(B_BlackTagSeq)
